@@ -26,9 +26,13 @@ from harness.props import c01, c07, c08, closed_c07, closed_c08
 
 BUDGET_S = 70
 # sidecars that declare definitions (modelled: SidecarV.validateClosedD / Tabular.validateClosedRawD with the environment of
-# each file's merged sidecar).  Off by default until the finding below is registered: C16_DECLARE_DEFS=1 turns it on.
-DECLARE = os.environ.get("C16_DECLARE_DEFS") == "1"
-SIG_NOFILE = "C16-definition-issue-without-file-name"
+# each file's merged sidecar).  On by default; C16_DECLARE_DEFS=0 turns it off.
+# Observation, not a violation: the definition issues of a sidecar are returned by the code without a file name
+# (SidecarValidator.validate appends them without passing them through its handler).  Neither C16 ("exactly the issues of
+# validating each merged sidecar ...": the lower-level Sidecar.validate returns the same unlabelled issue) nor C12 (no
+# clause requires a file context) says otherwise, so such issues are counted, attributed to the sidecar whose closed
+# result lists them, and compared like every other issue.  Any OTHER issue without a file name is a violation.
+DECLARE = os.environ.get("C16_DECLARE_DEFS", "1") == "1"
 EXCLUDED = ['sourcedata', 'derivatives', 'code', 'stimuli', 'phenotype']
 CAT_VALUES = ["go", "stop", "1", "left", "n/a", "zz"]
 VAL_VALUES = ["v1", "3", "w 3", "n/a", "7.5", "NA", "null", "None"]
@@ -266,9 +270,7 @@ def check_one(ctx, t, root, m, schema, BidsDataset):
         fam = [x for x in nameless if x[1]]
         other = [x for x in nameless if not x[1]]
         if fam:
-            ctx.count("closed:definition-issue-without-file-name", len(fam))
-            ctx.violation("every-issue-of-a-participating-sidecar-carries-its-file-name", case,
-                          {"issues_without_ec_filename": [x[2] for x in fam][:4]}, signature=SIG_NOFILE)
+            ctx.count("closed:observation:definition-issue-without-file-name", len(fam))
         if other:
             ctx.violation("closed:issue-without-file-name", case, {"issues": [x[2] for x in other][:4]})
         impl = {k: list(v) for k, v in impl.items()}
